@@ -406,7 +406,11 @@ func (l *lexer) next() rune {
 }
 
 func (l *lexer) nextToken() Token {
-	return <-l.tokens
+	if tok, ok := <-l.tokens; ok {
+		return tok
+	}
+	// the lexer has stopped (EOF or error): keep answering EOF
+	return Token{Kind: EOF, EndAt: len(l.input)}
 }
 
 func (l *lexer) peek() rune {
